@@ -14,7 +14,6 @@ import (
 	"sort"
 	"strings"
 	"testing"
-	"unicode"
 
 	gofumpt "mvdan.cc/gofumpt/format"
 	"pgregory.net/rapid"
@@ -36,6 +35,10 @@ type c1Gen struct {
 	// IgnoreType: key of a type for which GenerateType returns an error wrapping ErrIgnore AFTER rendering its pieces; what
 	// the generator rendered (for this and for the other types) is in the file all the same
 	IgnoreType string `json:"ignoretype,omitempty"`
+	// SkipType: key of another type for which GenerateType returns ErrSkip (SkipErr: skip | wrapskip) AFTER rendering its pieces:
+	// complete declarations that were rendered are in the file
+	SkipType string `json:"skiptype,omitempty"`
+	SkipErr  string `json:"skiperr,omitempty"`
 }
 
 type c1Case struct {
@@ -206,6 +209,14 @@ func genC01(t *rapid.T) c1Case {
 			g.IgnoreType = tk.pkg + "." + tk.typ
 			feats["errignore-after-rendering"] = true
 		}
+		if len(types) >= 2 && rapid.IntRange(0, 4).Draw(t, "skiptype") == 0 {
+			tk := types[rapid.IntRange(0, len(types)-1).Draw(t, "skippedtype")]
+			if tk.pkg+"."+tk.typ != g.IgnoreType {
+				g.SkipType = tk.pkg + "." + tk.typ
+				g.SkipErr = rapid.SampledFrom([]string{"skip", "wrapskip"}).Draw(t, "skiperr")
+				feats["errskip-after-rendering"] = true
+			}
+		}
 		if rapid.IntRange(0, 3).Draw(t, "defer") == 0 {
 			gr := &gg{t: t, uniq: fmt.Sprintf("D%d", gi), mlBlock: !c1KnownMLBlock, plain: plain, features: feats}
 			g.DeferPiece = gr.decls("T0", 1)
@@ -238,6 +249,9 @@ func (c *c1Case) scripts() []*script.Script {
 			first = false
 			if k == g.IgnoreType {
 				a.Err = "wrapignore"
+			}
+			if k == g.SkipType {
+				a.Err = g.SkipErr
 			}
 			s.PerType[k] = a
 		}
@@ -318,7 +332,8 @@ func sameCommentsUpToDirectiveOrder(got, want string) bool {
 func normComment(c string) string {
 	c = strings.NewReplacer("//", "", "/*", "", "*/", "").Replace(c)
 	return strings.Map(func(r rune) rune {
-		if unicode.IsSpace(r) {
+		// only the blanks go/printer moves; U+3000, U+00A0 and the like are content
+		if r == ' ' || r == '\t' || r == '\n' || r == '\r' {
 			return -1
 		}
 		return r
